@@ -233,9 +233,27 @@ CHECKS["C12"] = dict(
          "(threadsafe_event_trigger) are known findings.",
     design="DESIGN.md section 3 C12", bounded=True)
 
+CHECKS["C06"] = dict(
+    technique="abstract interpretation of FmtStr.__getitem__/__add__/__radd__/__mul__/__len__/join on a small-scope exhaustive catalogue, compared with CPython's own str and list operations on the text and on the per-character cells",
+    text="Small-scope exhaustive: for a pool of 7 run layouts (no runs, empty runs in every position, up to 4 characters) every index "
+         "and every pair of slice bounds in [-len-2, len+2] plus None, + with every pool value and with plain str on either side, "
+         "* 0..3, len(), and join of every list of up to 3 items of four kinds under a plain, an empty and a formatted separator are "
+         "evaluated from the source and compared with the SAME operation of CPython on the plain text (characters, IndexError) and "
+         "on the list of per-character (character, formatting) cells (formatting carried along; plain str characters "
+         "unformatted). The oracle is Python's str / list semantics, nothing is re-implemented.",
+    note="trusted: the evaluator of sa/; not decided: longer values, slice steps (NotImplementedError by design), larger repeat counts",
+    design="DESIGN.md section 3 C06", bounded=True)
+CHECKS["C09"] = dict(
+    technique="abstract interpretation of FmtStr.splice / append on a small-scope exhaustive catalogue, compared with list splicing of the per-character cells",
+    text="Small-scope exhaustive: for a pool of 8 run layouts (no runs, empty leading / middle / trailing runs, up to 5 characters), 6 "
+         "new values (empty and non-empty str, one- and two-run FmtStr, empty FmtStr, FmtStr without runs) and every 0 <= start <= "
+         "end <= len+2 as well as end omitted, splice(new, start, end) is evaluated from the source and compared with "
+         "cells(f)[:start] + cells(new) + cells(f)[end:] (Python list slicing as oracle); append(x) is splice at the end; the "
+         "receiver reads the same (cells and terminal string) before and after.",
+    note="trusted: the evaluator of sa/; not decided: longer values, start > end, negative positions",
+    design="DESIGN.md section 3 C09", bounded=True)
+
 NOT_APPLICABLE = [
-    ("C06", "slicing/normalisation is integer arithmetic over run layouts; no structural clause is a necessary condition visible in the code shape"),
-    ("C09", "five-way overlap arithmetic across runs; a sound static decision needs inductive integer invariants (solver family)"),
     ("C10", "column arithmetic over character widths that come from cwcwidth, a compiled extension outside the analysed source"),
     ("C11", "hand-written width state machine whose fence-posts are integer relations over external widths"),
     ("C16", "first-fit packing and word/gap pairing are index arithmetic; nothing structural is necessary and robust"),
